@@ -6,8 +6,17 @@ CFG = {
             "distinct = distinct (plan, subsets) or (archive, cut); plus, through the mlar binary, whole-archive extraction of archives of "
             "3 / 1001 / 1300 (thorough: also 999, 1000, 1500, 2500) files written interleaved in 2-3 rounds (more files than the extractor keeps open)",
     "exhaustive": {"quick": False, "thorough": False},
-    "explanation": "theorems: Ok implies the block walk reached an EndOfArchiveData tag (any stream, any bytes); data is delivered to chosen names "
-                   "only; correspondence: rows of helpers::linear_extract on the real reader equal the model's; oracle: sink(n) = bytes written for n "
-                   "(= get_file), Ok on a cut data part only if an independent block walk reaches a marker",
-    "assumptions": ["equality with per-file extraction on valid archives rests on the C01 round-trip theorem (both equal the bytes written)"],
+    "explanation": "theorems: Ok implies the block walk reached an EndOfArchiveData tag (any stream, any bytes) [C12_ok_needs_marker]; data is "
+                   "delivered to chosen names only [C12_only_chosen]; on every archive the writer model produces (any successful call list + "
+                   "finalize, any interleaving), over any stream refining a cursor over it, for any export list, linear extraction succeeds and each "
+                   "chosen file's writer receives exactly the bytes written for it, files not chosen and chosen names the archive lacks receive "
+                   "nothing [C12_linear_delivers_written, via C12_walk_is_spec + C12_spec_file]; that is literally the result of get_file + reads to "
+                   "the end [C12_linear_equals_per_file]; and it is what any write_all-driven sink accepting partial writes / interrupting holds, "
+                   "however io::copy cuts the pieces [C12_linear_any_sink]; the compared row is `delivered` [C12_row_is_delivered]; "
+                   "correspondence: rows of helpers::linear_extract on the real reader (ThrottledWriter sinks) equal the model's; oracle: sink(n) = "
+                   "bytes written for n (= get_file), Ok on a cut data part only if an independent block walk reaches a marker",
+    "assumptions": ["functional clause proved for streams that behave as a cursor over the block stream (Refines: what every layer stack provides, "
+                    "C11) and writers that never fail (a failing writer makes linear_extract return its error: not modelled); the BufReader "
+                    "around the source is modelled as transparent (same bytes; its read-ahead only matters on failing sources); model fuel "
+                    "bound: more loop steps than the archive has bytes"],
 }
